@@ -97,6 +97,10 @@ pub tracked struct Trace {
     pub ghost unreq: Set<(ActorId, ExecutionKind)>,
     /// an `Unrequested` was sent
     pub ghost sent_unreq: bool,
+    /// an `Invalidated` was sent
+    pub ghost sent_inval: bool,
+    /// a termination event was delivered
+    pub ghost term_seen: bool,
     /// [C01.identity] every message sent so far named this actor
     pub ghost ids_ok: bool,
     /// number of messages sent, and how many of them were execution errors
@@ -142,6 +146,7 @@ impl Trace {
                 _ => self.requested,
             },
             sent_unreq: self.sent_unreq || (m matches TargetActorOutputMessage::MessageActor { msg: ActorInputMessage::Unrequested { .. }, .. }),
+            sent_inval: self.sent_inval || (m matches TargetActorOutputMessage::MessageActor { msg: ActorInputMessage::Invalidated { .. }, .. }),
             ids_ok: self.ids_ok && msg_id_ok(m, self.me),
             n_out: self.n_out + 1,
             n_err: if m is TargetExecutionError { self.n_err + 1 } else { self.n_err },
@@ -151,6 +156,7 @@ impl Trace {
     pub open spec fn delivered(self, e: Ev) -> Trace {
         Trace {
             inlog: self.inlog.push(e),
+            term_seen: self.term_seen || e is Term,
             unreq: match e {
                 Ev::Msg(Some(ActorInputMessage::Unrequested { kind, requester })) => self.unreq.insert((requester, kind)),
                 _ => self.unreq,
@@ -172,7 +178,7 @@ impl Trace {
         &&& self.me == o.me && self.inlog == o.inlog && self.unreq == o.unreq && self.starts == o.starts
         &&& self.last_done_ok == o.last_done_ok && self.watcher_present == o.watcher_present
         &&& self.cancels_sent == o.cancels_sent && self.spawned == o.spawned && self.killed == o.killed && self.waited == o.waited
-        &&& self.n_err == o.n_err
+        &&& self.n_err == o.n_err && self.term_seen == o.term_seen
     }
 }
 
@@ -315,8 +321,17 @@ pub open spec fn bcast_last(l0: Map<(ActorId, ExecutionKind), Word>, l1: Map<(Ac
 pub open spec fn bcast_word(t0: Trace, t1: Trace, rs: Set<ActorId>, k: ExecutionKind, w: Word) -> bool {
     &&& t1.same_but_sends(t0)
     &&& t1.requested == t0.requested && t1.sent_unreq == t0.sent_unreq
+    &&& (w is Ok ==> t1.sent_inval == t0.sent_inval)
     &&& t1.n_out == t0.n_out + rs.len()
     &&& bcast_last(t0.last, t1.last, rs, k, w)
+}
+
+/// the trace effect of asking every dependency for `kind`: nothing but `requested`, `n_out` (and `ids_ok`) moves
+pub open spec fn asked_all(t0: Trace, t1: Trace, h: &TargetActorHelper, kind: ExecutionKind) -> bool {
+    &&& t1.same_but_sends(t0) && t1.last == t0.last && t1.sent_inval == t0.sent_inval && t1.sent_unreq == t0.sent_unreq
+    &&& (t0.ids_ok && h.target_id == t0.me ==> t1.ids_ok)
+    &&& forall|d: TargetId| #![trigger h.deps().contains(d)] h.deps().contains(d) ==> t1.requested.contains((ActorId::Target(d), kind))
+    &&& forall|key: (ActorId, ExecutionKind)| t0.requested.contains(key) ==> #[trigger] t1.requested.contains(key)
 }
 
 pub broadcast proof fn lemma_take_all<A>(s: Seq<A>)
@@ -342,6 +357,7 @@ pub proof fn lemma_sent_to_seq_request(t: Trace, dests: Seq<TargetId>, msg: Acto
     ensures
         sent_to_seq(t, dests, msg).same_but_sends(t),
         sent_to_seq(t, dests, msg).last == t.last,
+        sent_to_seq(t, dests, msg).sent_inval == t.sent_inval,
         sent_to_seq(t, dests, msg).n_out == t.n_out + dests.len(),
         t.ids_ok && msg_id_ok(TargetActorOutputMessage::MessageActor { dest: ActorId::Root, msg }, t.me) ==> sent_to_seq(t, dests, msg).ids_ok,
         msg matches ActorInputMessage::Requested { kind, .. } ==> {
@@ -501,6 +517,7 @@ impl TargetActorHelper {
         msg_id_ok(TargetActorOutputMessage::MessageActor { dest: ActorId::Root, msg }, old(tr).me) ==> final(tr).ids_ok == old(tr).ids_ok,
         word_of(msg, old(tr).inlog.len()) matches Some((k, w)) ==> bcast_last(old(tr).last, final(tr).last, self.req(kind), k, w),
         word_of(msg, old(tr).inlog.len()) is Some ==> final(tr).requested == old(tr).requested && final(tr).sent_unreq == old(tr).sent_unreq,
+        msg is Ok ==> final(tr).sent_inval == old(tr).sent_inval,
 //@pre
         broadcast use group_keys;
         broadcast use vstd::std_specs::hash::group_hash_axioms;
@@ -515,6 +532,7 @@ impl TargetActorHelper {
                 msg_id_ok(TargetActorOutputMessage::MessageActor { dest: ActorId::Root, msg }, old(tr).me) ==> tr.ids_ok == old(tr).ids_ok,
                 word_of(msg, old(tr).inlog.len()) matches Some((k, w)) ==> bcast_last(old(tr).last, tr.last, it.seq().take(it.index@ as int).unref().to_set(), k, w),
                 word_of(msg, old(tr).inlog.len()) is Some ==> tr.requested == old(tr).requested && tr.sent_unreq == old(tr).sent_unreq,
+                msg is Ok ==> tr.sent_inval == old(tr).sent_inval,
 //@loopbody
             proof {
                 let h = it.seq().take(it.index@ as int);
@@ -544,6 +562,14 @@ impl TargetActorHelper {
 //@contract
     ensures
         *final(tr) == sent_to_seq(*old(tr), self.dependencies@, ActorInputMessage::Requested { kind, requester: ActorId::Target(self.target_id) }),
+        /*[C04.request-deps,C20.fan-out]*/ asked_all(*old(tr), *final(tr), self, kind),
+//@after 0 `self.send_to_dependencies(`
+        proof {
+            lemma_sent_to_seq_request(*old(tr), self.dependencies@, ActorInputMessage::Requested { kind, requester: ActorId::Target(self.target_id) });
+            assert forall|d: TargetId| self.deps().contains(d) implies tr.requested.contains((ActorId::Target(d), kind)) by {
+                assert(self.dependencies@.contains(d));
+            }
+        }
 //@end
 
 //@fn src/engine/target_actor/target_actor_helper.rs TargetActorHelper::handle_unrequested ret=r
@@ -566,8 +592,203 @@ impl TargetActorHelper {
 //@contract
     ensures
         *final(tr) == sent_to_seq(*old(tr), self.dependencies@, ActorInputMessage::Unrequested { kind, requester: ActorId::Target(self.target_id) }),
+        final(tr).same_but_sends(*old(tr)), final(tr).last == old(tr).last, final(tr).sent_inval == old(tr).sent_inval,
+        final(tr).requested == old(tr).requested,
+        old(tr).ids_ok && self.target_id == old(tr).me ==> final(tr).ids_ok,
+//@after 0 `self.send_to_dependencies(`
+        proof {
+            lemma_sent_to_seq_request(*old(tr), self.dependencies@, ActorInputMessage::Unrequested { kind, requester: ActorId::Target(self.target_id) });
+        }
 //@end
 
+}
+
+// ===========================================================================
+// invariants shared by the three actor loops
+// ===========================================================================
+/// number of invalidation stimuli delivered: a file-change notification or a dependency's `Invalidated`
+pub open spec fn count_inval(log: Seq<Ev>) -> nat
+    decreases log.len()
+{
+    if log.len() == 0 { 0 } else {
+        count_inval(log.drop_last()) + (match log.last() {
+            Ev::Inval(_) => 1nat,
+            Ev::Msg(Some(ActorInputMessage::Invalidated { .. })) => 1nat,
+            _ => 0nat,
+        })
+    }
+}
+
+/// number of completed runs of the build future
+pub open spec fn count_done(log: Seq<Ev>) -> nat
+    decreases log.len()
+{
+    if log.len() == 0 { 0 } else {
+        count_done(log.drop_last()) + (if log.last() is Done { 1nat } else { 0nat })
+    }
+}
+
+/// AckInv (DESIGN §7 C04.ack / C01.ok-*): for every peer that never un-registered, its latest word
+/// of kind `k` is `Ok` exactly when this actor is ready for `k` and the peer is registered.
+pub open spec fn ack_inv(h: &TargetActorHelper, tr: Trace, k: ExecutionKind, ready: bool) -> bool {
+    forall|r: ActorId| #![trigger tr.last.contains_key((r, k))] #![trigger h.req(k).contains(r)]
+        !tr.unreq.contains((r, k)) ==> (tr.told_ok(r, k) <==> (ready && h.req(k).contains(r)))
+}
+
+/// every `Ok` of kind `k` this actor ever sent (latest per peer) carried `actual == a`, and no `Invalidated` of that kind is recorded
+pub open spec fn only_ok_actual(tr: Trace, k: ExecutionKind, a: bool) -> bool {
+    forall|r: ActorId| #![trigger tr.last.contains_key((r, k))]
+        tr.last.contains_key((r, k)) ==> (tr.last[(r, k)] matches Word::Ok { actual, .. } && actual == a)
+}
+pub open spec fn oks_actual(tr: Trace, k: ExecutionKind, a: bool) -> bool {
+    forall|r: ActorId| #![trigger tr.last.contains_key((r, k))]
+        tr.last.contains_key((r, k)) ==> (tr.last[(r, k)] matches Word::Ok { actual, .. } ==> actual == a)
+}
+
+/// [C04.request-deps] every dependency was asked for kind `k`
+pub open spec fn deps_requested(h: &TargetActorHelper, tr: Trace, k: ExecutionKind) -> bool {
+    forall|d: TargetId| #![trigger h.deps().contains(d)] h.deps().contains(d) ==> tr.requested.contains((ActorId::Target(d), k))
+}
+
+pub open spec fn nonempty<A>(s: Set<A>) -> bool { exists|x: A| s.contains(x) }
+
+pub open spec fn kinds_book(h: &TargetActorHelper, tr: Trace) -> bool {
+    &&& h.un(ExecutionKind::Build) == unavail_of(h.deps(), tr.inlog, ExecutionKind::Build)
+    &&& h.un(ExecutionKind::Service) == unavail_of(h.deps(), tr.inlog, ExecutionKind::Service)
+}
+
+/// [C01.start-*] at a start, the latest word of every dependency, for both kinds, is `Ok`
+pub open spec fn all_deps_ok(h: &TargetActorHelper, tr: Trace) -> bool {
+    forall|d: TargetId, k: ExecutionKind| #![trigger last_word(tr.inlog, k, d)] h.deps().contains(d) ==> last_word(tr.inlog, k, d) == Some(RWord::Ok)
+}
+
+pub proof fn lemma_start_ready(h: &TargetActorHelper, tr: Trace)
+    requires kinds_book(h, tr), h.un(ExecutionKind::Build).len() == 0, h.un(ExecutionKind::Service).len() == 0,
+        h.un(ExecutionKind::Build).finite(), h.un(ExecutionKind::Service).finite(),
+    ensures all_deps_ok(h, tr),
+{
+    assert forall|d: TargetId, k: ExecutionKind| h.deps().contains(d) implies #[trigger] last_word(tr.inlog, k, d) == Some(RWord::Ok) by {
+        lemma_unavail_last_word(h.deps(), tr.inlog, k, d);
+        if k == ExecutionKind::Build {
+            assert(!h.un(ExecutionKind::Build).contains(d));
+        } else {
+            assert(k == ExecutionKind::Service);
+            assert(!h.un(ExecutionKind::Service).contains(d));
+        }
+    }
+}
+
+// ===========================================================================
+// BuildTargetActor
+// ===========================================================================
+//@item src/engine/target_actor/build_target_actor.rs BuildTargetActor pubfields
+
+/// one firing of the build actor's `select!` (R3).  Assumed (A-chan): the event is appended to the
+/// delivery log; the inbox yields `Some` (its sender lives in the relay until every actor was joined);
+/// the `Done` arm can only fire while the fuse holds a running future, and empties it; the
+/// invalidation arm can only fire when a watcher holds the sender.
+#[verifier::external_body]
+pub fn select_build(fuse: &mut Fuse, h: &TargetActorHelper, Tracked(tr): Tracked<&mut Trace>) -> (e: Ev)
+    ensures
+        *final(tr) == old(tr).delivered(e),
+        e is Done ==> old(fuse).running() && !final(fuse).running(),
+        !(e is Done) ==> final(fuse).running() == old(fuse).running(),
+        e matches Ev::Msg(m) ==> m is Some,
+        e is Inval ==> old(tr).watcher_present,
+{ unimplemented!() }
+
+impl BuildTargetActor {
+    /// [C02.wiring] the run that was just started works on this actor's own target: its metadata, its
+    /// inputs, its outputs, and the script of the same target
+    pub open spec fn wired_last(&self, tr: Trace) -> bool {
+        &&& tr.starts.len() > 0
+        &&& tr.starts.last().meta == self.target.metadata
+        &&& tr.starts.last().input == self.target.input
+        &&& tr.starts.last().output == Some(self.target.output)
+        &&& tr.starts.last().script_of == self.target
+    }
+
+//@fn src/engine/target_actor/build_target_actor.rs BuildTargetActor::new ret=r
+//@contract
+    ensures r.target == target, r.helper == target_actor_helper,
+//@end
+
+//@fn src/engine/target_actor/build_target_actor.rs BuildTargetActor::run
+//@split-arms
+//@attr #[verifier::exec_allows_no_decreases_clause]
+//@contract
+    requires
+        old(self).helper.wf(),
+        old(self).helper.to_execute && !old(self).helper.executed,
+        old(self).helper.req(ExecutionKind::Build) == Set::<ActorId>::empty(),
+        old(self).helper.req(ExecutionKind::Service) == Set::<ActorId>::empty(),
+        old(self).helper.un(ExecutionKind::Build) == old(self).helper.deps(),
+        old(self).helper.un(ExecutionKind::Service) == old(self).helper.deps(),
+        old(self).helper.target_id == old(tr).me,
+        old(tr).inlog.len() == 0, old(tr).last == Map::<(ActorId, ExecutionKind), Word>::empty(),
+        old(tr).requested == Set::<(ActorId, ExecutionKind)>::empty(),
+        old(tr).unreq == Set::<(ActorId, ExecutionKind)>::empty(),
+        !old(tr).sent_unreq, !old(tr).sent_inval, !old(tr).term_seen, old(tr).ids_ok, old(tr).starts.len() == 0, old(tr).n_err == 0,
+    ensures
+        /*[C04.no-early-exit]*/ final(tr).term_seen,
+        /*[C01.identity]*/ final(tr).ids_ok,
+//@pre
+        broadcast use group_keys;
+        broadcast use vstd::std_specs::hash::group_hash_axioms;
+        let ghost h0 = self.helper;
+        let ghost t0 = self.target;
+//@loop 0
+            invariant_except_break
+                /*[C10.cancel-on-term]*/ termination_event_received ==> ongoing_build_fuse.running() && tr.cancels_sent > 0,
+            invariant
+                self.helper.wf(), self.helper.same_static(&h0), self.target == t0,
+                /*[C01.identity]*/ self.helper.target_id == tr.me && tr.ids_ok,
+                /*[C01.book]*/ kinds_book(&self.helper, *tr),
+                /*[C08.single-inflight]*/ ongoing_build_fuse.running() == ongoing_build_cancellation_sender.is_some(),
+                self.helper.to_execute ==> !self.helper.executed,
+                /*[C01.ok-build]*/ self.helper.executed ==> !ongoing_build_fuse.running() && tr.last_done_ok,
+                /*[C04.ack,C01.ok-build]*/ ack_inv(&self.helper, *tr, ExecutionKind::Build, self.helper.executed),
+                /*[C11.build-false]*/ only_ok_actual(*tr, ExecutionKind::Service, false),
+                /*[C11.build-true]*/ oks_actual(*tr, ExecutionKind::Build, true),
+                termination_event_received ==> tr.term_seen,
+                /*[C04.no-unrequest]*/ tr.sent_unreq ==> nonempty(tr.unreq),
+                /*[C08.no-inval-oneshot]*/ tr.sent_inval ==> count_inval(tr.inlog) > 0,
+                /*[C04.request-deps]*/ self.helper.req(ExecutionKind::Build).len() > 0 ==> deps_requested(&self.helper, *tr, ExecutionKind::Build) && deps_requested(&self.helper, *tr, ExecutionKind::Service),
+                /*[C08.once-local]*/ tr.starts.len() + (if self.helper.to_execute { 1nat } else { 0nat }) <= 1 + count_inval(tr.inlog),
+                count_done(tr.inlog) + (if ongoing_build_fuse.running() { 1nat } else { 0nat }) == tr.starts.len(),
+                /*[C07.no-ack-on-failure]*/ tr.n_err <= count_done(tr.inlog),
+            ensures
+                /*[C10.cancel-on-term]*/ !ongoing_build_fuse.running(),
+                /*[C04.no-early-exit]*/ tr.term_seen,
+//@loopbody
+            broadcast use group_keys;
+            broadcast use vstd::std_specs::hash::group_hash_axioms;
+//@before 0 `ongoing_build_fuse.set(`
+                proof { lemma_start_ready(&self.helper, *tr); }
+                assert(/*[C01.start-build]*/ all_deps_ok(&self.helper, *tr));
+                assert(/*[C08.once-local]*/ self.helper.to_execute);
+//@after 0 `ongoing_build_fuse.set(`
+                assert(/*[C02.wiring]*/ self.wired_last(*tr));
+//@select 0 enum=Ev oracle=`select_build(&mut ongoing_build_fuse, &self.helper)`
+//@arm Term `self.helper.termination_events.next().fuse()`
+//@arm Inval `self.helper.target_invalidated_events.next().fuse()`
+//@arm Msg `self.helper.target_actor_input_receiver.next().fuse()`
+//@arm Done `ongoing_build_fuse`
+            let ghost log0 = tr.inlog;
+            //---
+            proof {
+                assert(tr.inlog.drop_last() == log0);
+                reveal_with_fuel(unavail_of, 2);
+                reveal_with_fuel(count_inval, 2);
+                reveal_with_fuel(count_done, 2);
+                let ghost ev_g = __ev;
+                if let Ev::Msg(Some(ActorInputMessage::Unrequested { kind, requester })) = ev_g {
+                    assert(tr.unreq.contains((requester, kind)));
+                }
+            }
+//@after 0 `loop`
+        assert(/*[C10.cancel-on-term]*/ !ongoing_build_fuse.running());
+//@end
 }
 
 //@include footer.rs
